@@ -345,12 +345,12 @@ def derive(how, src, arg, pool, i):
     elif how == "merge":
         if any(s < 2 for s in src.shape):
             return True, NotImplemented, P
-        ok, res = attempt(src.merge_bins, 2, axis=arg % nd)
+        ok, res = attempt(src.merge_bins, 2, axis=axis_spelling(src, arg % nd, arg))
     elif how == "projection":
         if nd < 2:
             return True, NotImplemented, P
         axes = [arg % nd] if (nd == 2 or arg % 2) else [a for a in range(nd) if a != arg % nd]
-        ok, res = attempt(src.projection, *axes)
+        ok, res = attempt(src.projection, *[axis_spelling(src, a, arg) for a in axes])
     elif how == "slice":
         if nd == 1:
             if src.bin_count < 2:
@@ -374,7 +374,7 @@ def derive(how, src, arg, pool, i):
     elif how == "select_int":
         if nd < 2 or src.shape[arg % nd] < 1:
             return True, NotImplemented, P
-        ok, res = attempt(src.select, arg % nd, 0)
+        ok, res = attempt(src.select, axis_spelling(src, arg % nd, arg), 0)
     elif how == "T":
         if type(src).__name__ != "Histogram2D":
             return True, NotImplemented, P
@@ -382,16 +382,26 @@ def derive(how, src, arg, pool, i):
     elif how == "partial_normalize":
         if type(src).__name__ != "Histogram2D":
             return True, NotImplemented, P
-        ok, res = attempt(src.partial_normalize, arg % 2)
+        ok, res = attempt(src.partial_normalize, axis_spelling(src, arg % 2, arg))
     elif how == "accumulate":
         if nd < 2:
             return True, NotImplemented, P
-        ok, res = attempt(src.accumulate, arg % nd)
+        ok, res = attempt(src.accumulate, axis_spelling(src, arg % nd, arg))
     elif how == "json":
         ok, res = attempt(lambda: parse_json(src.to_json()))
     else:
         return True, NotImplemented, P
     return ok, res, P
+
+
+def axis_spelling(h, ax, arg):
+    """The same axis in one of the two spellings physt accepts: index or name (negative and numpy-integer axes are
+    refused by design: "int or str expected")."""
+    if (arg >> 6) % 2:
+        names = list(h.axis_names)
+        if len(set(names)) == len(names) and all(isinstance(n, str) and n for n in names):
+            return names[ax]
+    return ax
 
 
 def mutate(how, h, arg, ctx):
@@ -411,6 +421,8 @@ def mutate(how, h, arg, ctx):
         if how == "fill_far" and h.is_adaptive():
             ctx.fault("adaptive_growth")
         v = [x + off for x in lo]
+        if (arg >> 7) % 3 == 0:
+            return attempt(lambda: h << (v[0] if nd == 1 else v))  # operator spelling of fill
         return attempt(h.fill, v[0] if nd == 1 else v)
     if how == "fill_n":
         if special:
@@ -437,7 +449,12 @@ def mutate(how, h, arg, ctx):
         return attempt(lambda: h.__itruediv__(4))
     if how == "set_dtype":
         ctx.fault("dtype_change")
-        return attempt(h.set_dtype, [np.float64, np.float32, np.float64][arg % 3])
+        target = [np.float64, np.float32, np.float64][arg % 3]
+        if (arg >> 7) % 2:
+            def via_setter():
+                h.dtype = target
+            return attempt(via_setter)
+        return attempt(h.set_dtype, target)
     if how == "set_name":
         ctx.fault("metadata_edit")
 
@@ -466,7 +483,7 @@ def mutate(how, h, arg, ctx):
         if any(s < 2 for s in h.shape):
             return True, NotImplemented
         ctx.fault("inplace_merge")
-        return attempt(h.merge_bins, 2, axis=arg % nd, inplace=True)
+        return attempt(h.merge_bins, 2, axis=axis_spelling(h, arg % nd, arg), inplace=True)
     if how == "normalize_inplace":
         if not h.total > 0:
             return True, NotImplemented
@@ -475,5 +492,9 @@ def mutate(how, h, arg, ctx):
     if how == "set_adaptive":
         if not all(b.adaptive_allowed for b in h.binnings) or any(b.includes_right_edge for b in h.binnings):
             return True, NotImplemented
+        if (arg >> 7) % 2:
+            def via_property():
+                h.adaptive = bool(arg % 2)
+            return attempt(via_property)
         return attempt(h.set_adaptive, bool(arg % 2))
     return True, NotImplemented
